@@ -7,7 +7,7 @@
    oracle.  "fresh" blocks are blocks that did not exist before the call: storage that nothing
    else can reach.  The metadata / slice containers are covered by the sanitizer run only.
    Statements only; proofs in MemFacts.v. *)
-From Sbdf Require Import Imp ImpCall Gen.Prog ImpBase ImpFactsCells ImpFactsDestroy ImpFactsRelease.
+From Sbdf Require Import Imp ImpCall Gen.Prog ImpBase ImpFactsCells ImpFactsDestroy ImpFactsRelease ImpFactsReleaseAll.
 From Coq Require Import List.
 From Sbdf Require Import Mem MemFacts.
 
@@ -183,3 +183,23 @@ Theorem C12_source_release_leaves_others : forall b1 b2 b3 (h : heap) c, c <> b1
   nth_error (kill b1 (kill b2 (kill b3 h))) c = nth_error h c.
 Proof. exact release_leaves_others. Qed.
 Print Assumptions C12_source_release_leaves_others.
+
+(* ---- a column slice that owns its arrays (built by the reader), from the source: sbdf_cs_destroy goes through
+   sbdf_cs_destroy_all: the values array (h1) and then every property array in order (h2: va_destroys_list -
+   each handed to sbdf_va_destroy exactly once) are destroyed, the owned flag is cleared (h3), and the slice's
+   own blocks - names, the two pointer arrays, the struct - are released.  The run completes, so no released
+   block is touched again. *)
+Theorem C12_source_cs_destroy_owning : forall k sx m h cb values n names props owned pb pcells pused pslack h1 h2 h3 nb ncells used, owned <> 0 ->
+  cs_block h cb values n names props owned -> n < int_max ->
+  va_destroys_opt m h values h1 -> (forall b, In b [cb; pb] -> nth_error h1 b = nth_error h b) ->
+  as_ptr props = VCell pb 0 -> nth_error h pb = Some (Some pcells) -> pcells = pused ++ pslack -> zlen pused = n ->
+  va_destroys_list m [cb; pb] h1 pused h2 ->
+  cell_set h2 cb 4 (VInt 0) = Some h3 ->
+  cs_block h3 cb values (zlen used) names props 0 -> as_ptr names = VCell nb 0 -> nth_error h3 nb = Some (Some ncells) ->
+  ImpFactsRelease.elem_ptrs m used -> (exists slack, ncells = used ++ slack) -> zlen used < int_max ->
+  nth_error h3 pb = Some (Some pcells) -> cb <> nb -> cb <> pb -> nb <> pb ->
+  exists f0, forall f, (f0 <= f)%nat -> exists fin,
+    callC prog_env f prog_sbdf_cs_destroy [VCell cb 0] m k sx h = OReturn (VInt 0) fin /\ inb fin = m /\
+    Imp.lookup cells_var (vars fin) = Some (VHeap (kill cb (kill pb (kill nb h3)))).
+Proof. exact cs_destroy_owned_source. Qed.
+Print Assumptions C12_source_cs_destroy_owning.
